@@ -138,7 +138,7 @@ on every `LF.Sorted` array).  The reverse-strand lower bound, i.e.
 for `t = fmdText seqs`, needs (i) strand symmetry of occurrence counts in `fmdText` and (ii) "rows starting with
 `Q` are ordered by the symbol after `Q`"; both are proved below (`strand_symmetry`, `FMDModel.next_mono`), and the
 full statements are `backward_ext_correct` / `forward_ext_correct` at the end of this section (the `…_partial`
-theorems are the stages on the way and stay valid).  Still sampled only: `init_interval_with`, extension of the
+theorems are the stages on the way and stay valid).  `init_interval_with_correct` and `chain_correct` cover the start and the composition.  Still sampled only: extension of the
 empty string's interval (`init_interval()`), extension of an empty bi-interval, and Li's sweep (`smems`) itself.
 The driver runs the model next to the implementation on every extension chain (tag `model=impl` / `drift`). -/
 
@@ -239,6 +239,36 @@ theorem forward_ext_correct (seqs : List (List Nat)) (sa P : List Nat) (iv : FMD
     FMDSym.BiOf (fmdText seqs) sa (P ++ [a])
       (FMDModel.forwardExt (LF.lessRef (LF.bwtOf (fmdText seqs) sa)) (LF.occRef (LF.bwtOf (fmdText seqs) sa)) iv a) :=
   FMDSym.forwardExt_correct seqs sa P iv a hne hseqs hchk hP hPd ha hbi hpos
+
+/-- **`init_interval_with(a)` is the bi-interval of the one-symbol string `a`** (uses that a DNA symbol and its
+complement are equally frequent in an FMD text: `FMDSym.count_symmetry`) -/
+theorem init_interval_with_correct (seqs : List (List Nat)) (sa : List Nat) (a : Nat)
+    (hne : seqs ≠ []) (hchk : LF.sortedAllB (fmdText seqs) sa = true) (ha : FMDModel.isDna a = true) :
+    FMDSym.BiOf (fmdText seqs) sa [a] (FMDModel.initIntervalWith (LF.lessRef (LF.bwtOf (fmdText seqs) sa)) a) :=
+  FMDSym.initIntervalWith_correct seqs sa a hne hchk ha
+
+/-- **chains** (what `smems` and the harness do): starting from `init_interval_with(w[j])`, every forward step
+turns the bi-interval of `w[lo..hi)` into that of `w[lo..hi+1)` and every backward step into that of `w[lo-1..hi)`,
+as long as the current bi-interval is non-empty — so every bi-interval a chain visits is the bi-interval of the
+substring built so far -/
+theorem chain_correct (seqs : List (List Nat)) (sa w : List Nat)
+    (hne : seqs ≠ []) (hseqs : ∀ s ∈ seqs, ∀ c ∈ s, FMDModel.isDna c = true)
+    (hchk : LF.sortedAllB (fmdText seqs) sa = true) (hw : ∀ c ∈ w, FMDModel.isDna c = true) :
+    (∀ j, j < w.length →
+      FMDSym.BiOf (fmdText seqs) sa (sub w j (j + 1 - j))
+        (FMDModel.initIntervalWith (LF.lessRef (LF.bwtOf (fmdText seqs) sa)) (w.getD j 0))) ∧
+    (∀ iv lo hi, lo < hi → hi < w.length → FMDSym.BiOf (fmdText seqs) sa (sub w lo (hi - lo)) iv → 0 < iv.size →
+      FMDSym.BiOf (fmdText seqs) sa (sub w lo (hi + 1 - lo))
+        (FMDModel.forwardExt (LF.lessRef (LF.bwtOf (fmdText seqs) sa)) (LF.occRef (LF.bwtOf (fmdText seqs) sa)) iv
+          (w.getD hi 0))) ∧
+    (∀ iv lo hi, 1 ≤ lo → lo < hi → hi ≤ w.length → FMDSym.BiOf (fmdText seqs) sa (sub w lo (hi - lo)) iv →
+      0 < iv.size →
+      FMDSym.BiOf (fmdText seqs) sa (sub w (lo - 1) (hi - (lo - 1)))
+        (FMDModel.backwardExt (LF.lessRef (LF.bwtOf (fmdText seqs) sa)) (LF.occRef (LF.bwtOf (fmdText seqs) sa)) iv
+          (w.getD (lo - 1) 0))) :=
+  ⟨fun j hj => FMDSym.chain_start seqs sa w j hne hchk hw hj,
+   fun iv lo hi h1 h2 h3 h4 => FMDSym.chain_step_forward seqs sa w iv lo hi hne hseqs hchk hw h1 h2 h3 h4,
+   fun iv lo hi h0 h1 h2 h3 h4 => FMDSym.chain_step_backward seqs sa w iv lo hi hne hseqs hchk hw h0 h1 h2 h3 h4⟩
 
 /-- row-level correctness implies the property-level statement the oracle checks (`BiIntervalOf`, decided by
 `checkBi`): size = number of occurrences on both strands, both intervals map to the right occurrence sets -/
